@@ -477,12 +477,13 @@ func (d *Device) UnusedObjects(vsys string) []string {
 
 // Backend puts the device model behind the PAN-OS XML API simulator.
 type Backend struct {
-	mu        sync.Mutex
-	D         *Device
-	Rejected  []string
-	Writes    []string // "action xpath"
-	Commits   int
-	Committed *Device // state at the last commit
+	mu         sync.Mutex
+	D          *Device
+	Rejected   []string
+	RejectedAt []int    // index into Writes of each refused request
+	Writes     []string // "action xpath"
+	Commits    int
+	Committed  *Device // state at the last commit
 }
 
 func (b *Backend) DevicesXML() string {
@@ -498,6 +499,7 @@ func (b *Backend) Apply(action, xpath, element string, q url.Values) string {
 	v := b.D.ApplyQuery(action, xpath, element, q)
 	if strings.HasPrefix(v, "rejected") {
 		b.Rejected = append(b.Rejected, action+" "+xpath+": "+v)
+		b.RejectedAt = append(b.RejectedAt, len(b.Writes)-1)
 	}
 	return v
 }
